@@ -23,7 +23,10 @@ use runner::{BatchCfg, BatchOut, Found, HarnessFn, RunOutput, RunSpec};
 use serde_json::json;
 use wire::RunStats;
 
-const VERIF: &str = "/verif";
+/// Directory evidence, replays and known findings live in (the directory of the `check` script).
+fn verif_dir() -> String {
+    std::env::var("VERIF_DIR").unwrap_or_else(|_| "/verif".to_string())
+}
 
 fn wire_harness(spec: &RunSpec) -> RunOutput {
     let plan = match &spec.plan {
@@ -40,6 +43,7 @@ fn wire_harness(spec: &RunSpec) -> RunOutput {
                 }
             }
         },
+        None if spec.prop == Prop::C09 => gen::gen_c09_plan(spec.seed, spec.tier, spec.index, spec.batch_seed),
         None => gen::gen_wire_plan(spec.prop, spec.seed, spec.tier),
     };
     if spec.plan_only {
@@ -52,7 +56,8 @@ fn wire_harness(spec: &RunSpec) -> RunOutput {
             plan: plan.to_json(),
         };
     }
-    let res = wire::run_wire(&plan, spec.choices.clone(), spec.tracing);
+    let mut res = wire::run_wire(&plan, spec.choices.clone(), spec.tracing);
+    res.stats.fault_point = plan.fault_point;
     RunOutput {
         violations: res.violations,
         harness_error: res.harness_error,
@@ -234,9 +239,9 @@ fn prop_cfg(prop: Prop) -> Option<PropCfg> {
         ),
         Prop::C06 | Prop::C15 | Prop::C19 => {
             let (rule, level): (&'static str, &'static str) = match prop {
-                Prop::C06 => ("2-4 real clients (versions 1.14-1.20, unbounded / bounded(1,2,4,16) core::channel transports or the simulated pipe) each running 1-3 application tasks that interpret random closed programs over the public API (objects, services with server tasks, proxies, calls awaited/dropped/cancelled, events, channels in every state incl. unbind/bind/claim, sessions with producer and consumer, bus listeners, discoverers, lifetimes, sync); non-trivial when the broker processed more than 20 requests; distinct = distinct broker linearisation signatures", "exploration"),
-                Prop::C15 => ("the C06 programs plus one termination of a victim client per run: transport error or EOF injected at transport operation index k (k = a per-run fraction of the victim's operation count in a fault-free execution of the same plan), or Handle::shutdown / all handles dropped / broker shutdown / shutdown_connection applied when the victim's transport has performed k operations; 12 (quick) or 96 (thorough) (cause, k, schedule) variants per generated program; non-trivial when the broker processed more than 20 requests; distinct = distinct broker linearisation signatures", "fault_enumeration"),
-                _ => ("mutator tasks create/destroy objects and services over 3x3 UUID pools (re-creation under the same UUID, partial service sets) while observer tasks run discoverers with 1-3 entries of all four kinds, restart them, consume events at random rates, and use find_object / wait_for_object / lifetime scopes; views are compared with the bus state at quiescence; non-trivial when the broker processed more than 20 requests; distinct = distinct broker linearisation signatures", "exploration"),
+                Prop::C06 => ("non-trivial = more than 20 broker steps and at least one call value, event or channel item was checked end to end. 2-4 real clients (versions 1.14-1.20, unbounded / bounded(1,2,4,16) core::channel transports or the simulated pipe) each running 1-3 application tasks that interpret random closed programs over the public API (objects, services with server tasks, proxies, calls awaited/dropped/cancelled, events, channels in every state incl. unbind/bind/claim, sessions with producer and consumer, bus listeners, discoverers, lifetimes, sync); distinct = distinct broker linearisation signatures", "exploration"),
+                Prop::C15 => ("non-trivial = more than 20 broker steps and the planned termination cause was actually applied / the injected fault actually fired. The C06 programs plus one termination of a victim client per run: transport error or EOF injected at transport operation index k (k = a per-run fraction of the victim's operation count in a fault-free execution of the same plan), or Handle::shutdown / all handles dropped / broker shutdown / shutdown_connection applied when the victim's transport has performed k operations; 12 (quick) or 96 (thorough) (cause, k, schedule) variants per generated program; non-trivial when the broker processed more than 20 requests; distinct = distinct broker linearisation signatures", "fault_enumeration"),
+                _ => ("non-trivial = more than 20 broker steps and at least one discoverer, lifetime or find result was compared with the bus state. Mutator tasks create/destroy objects and services over 3x3 UUID pools (re-creation under the same UUID, partial service sets) while observer tasks run discoverers with 1-3 entries of all four kinds, restart them, consume events at random rates, and use find_object / wait_for_object / lifetime scopes; views are compared with the bus state at quiescence; non-trivial when the broker processed more than 20 requests; distinct = distinct broker linearisation signatures", "exploration"),
             };
             PropCfg {
                 harness: api::api_harness,
@@ -286,7 +291,7 @@ fn parse_args() -> (Vec<String>, std::collections::HashMap<String, String>) {
 }
 
 fn write_replay(prop: Prop, tier: Tier, base_seed: u64, f: &Found, minimised: bool) -> String {
-    let dir = format!("{VERIF}/replays");
+    let dir = format!("{}/replays", verif_dir());
     let _ = std::fs::create_dir_all(&dir);
     let mut h = rng::Fnv::new();
     h.str(&f.plan.to_string());
@@ -311,7 +316,7 @@ fn write_replay(prop: Prop, tier: Tier, base_seed: u64, f: &Found, minimised: bo
 }
 
 fn write_evidence(prop: Prop, tier: Tier, base_seed: u64, cfg: &PropCfg, out: &BatchOut, violations: u64) {
-    let dir = format!("{VERIF}/evidence");
+    let dir = format!("{}/evidence", verif_dir());
     let _ = std::fs::create_dir_all(&dir);
     let rph = if out.wall_s > 0.0 {
         out.evaluations as f64 / out.wall_s * 3600.0
@@ -342,6 +347,9 @@ fn write_evidence(prop: Prop, tier: Tier, base_seed: u64, cfg: &PropCfg, out: &B
             "messages_total": out.msgs_total,
             "workload_messages_per_run": if out.evaluations > 0 { out.msgs_total as f64 / out.evaluations as f64 } else { 0.0 },
             "faults_fired": out.faults,
+            "fault_points_enumerated": out.fault_points.len(),
+            "fault_points_total_of_the_programs_touched": out.fault_bases.values().sum::<u64>(),
+            "fault_programs": out.fault_bases.len(),
             "probes": out.probes,
             "probes_at_zero": zero_probes,
             "distinct_schedules": out.schedules.len(),
@@ -387,7 +395,7 @@ fn cmd_run(prop: Prop, tier: Tier, opts: &std::collections::HashMap<String, Stri
         .unwrap_or_else(|| std::thread::available_parallelism().map(|n| n.get()).unwrap_or(8));
 
     println!("property={} tier={} VERIF_SEED={} max_runs={} max_secs={} workers={}", prop.name(), tier.name(), base_seed, runs, secs, workers);
-    let known = runner::load_known_findings(&format!("{VERIF}/known_findings.json"));
+    let known = runner::load_known_findings(&format!("{}/known_findings.json", verif_dir()));
 
     let bcfg = BatchCfg {
         prop,
@@ -422,7 +430,7 @@ fn cmd_run(prop: Prop, tier: Tier, opts: &std::collections::HashMap<String, Stri
                 return 2;
             }
             Ok(_) => {
-                let min = shrink::minimise(cfg.harness, prop, tier, found, 400);
+                let min = shrink::minimise(cfg.harness, prop, tier, found, 1500);
                 let minimised = min.is_some();
                 let f = min.as_ref().unwrap_or(found);
                 let path = write_replay(prop, tier, base_seed, f, minimised);
